@@ -85,7 +85,22 @@ PLAN9 = {
  'W9G-m1': ('G', ['C08']), 'W9G-m2': ('G', ['C08']),
  'W9H-m1': ('H', ['C04']), 'W9H-m2': ('H', ['C04']),
 }
+PLAN10 = {
+ 'WAA-m1': ('A', ['C02']), 'WAA-m2': ('A', ['C02']),
+ 'WAB-m1': ('B', ['C01']), 'WAB-m2': ('B', ['C01']),
+ 'WAC-m1': ('C', ['C03']), 'WAC-m2': ('C', ['C03']),
+ 'WAD-m1': ('D', ['C06']), 'WAD-m2': ('D', ['C06']),
+ 'WAE-m1': ('E', ['C20']), 'WAE-m2': ('E', ['C20']),
+ 'WAF-m1': ('F', ['C09']), 'WAF-m2': ('F', ['C09']),
+ 'WAG-m1': ('G', ['C07']), 'WAG-m2': ('G', ['C07']),
+ 'WAH-m1': ('H', ['C05']), 'WAH-m2': ('H', ['C05']),
+ 'WAI-m1': ('I', ['C10']), 'WAI-m2': ('I', ['C10']),
+ 'WAJ-m1': ('J', ['C12']), 'WAJ-m2': ('J', ['C12']),
+}
 SRC = {}
+for k, (d, checks) in PLAN10.items():
+    PLAN[k] = checks
+    SRC[k] = f'/tmp/mut10-{d}/out/{k.split("-")[1]}'
 for k, (d, checks) in PLAN9.items():
     PLAN[k] = checks
     SRC[k] = f'/tmp/mut9-{d}/out/{k.split("-")[1]}'
